@@ -24,6 +24,42 @@ def parity(p):
     return s
 
 
+def interp_set(db, f, p4):
+    """interpret the skeleton of IndexContainer4::set on an empty container for four distinct indices"""
+    from pv.summ import Interp, Obj, FObj, Thrown
+
+    def mk_ic4(fr, i, args):
+        if len(args) != 4:
+            fr.bad(i, "IndexCombination4 constructed from %d arguments" % len(args))
+        return FObj("IC4", **{IDX[k]: args[k] for k in range(4)})
+
+    def mk_alias(fr, i, args):
+        if len(args) != 2 or not (isinstance(args[1], Obj) and args[1].cls == "perm"):
+            fr.bad(i, "ElementWithPermFreq constructed from unexpected arguments")
+        return Obj("alias", elem=args[0], perm=args[1].f["idx"])
+    elem = Obj("element")
+    prims = {"construct Pomerol::IndexCombination4": mk_ic4, "construct Pomerol::ElementWithPermFreq": mk_alias,
+             "global Pomerol::permutations4": [Obj("perm", idx=k) for k in range(len(p4))]}
+    for j, n in f.walk(f.body):
+        if n["k"] == "call" and (n.get("cname") or "").endswith("::createElement"):
+            prims[strip_targs(n["cname"])] = lambda fr, i, obj, args: elem
+    orig = (10, 11, 12, 13)
+    this = Obj("IndexContainer4", **{IC4 + "::ElementsMap": {}, IC4 + "::NonTrivialElements": {}, IC4 + "::pSource": Obj("source")})
+    ip = Interp(db, prims)
+    try:
+        ip.call_fn(f, [FObj("IC4", **{IDX[k]: orig[k] for k in range(4)})], this=this)
+    except Thrown as t:
+        raise AnalysisBroken("%s: interpreted summary throws %s at %s" % (f.qn, t.tt, t.where))
+    ents = []
+    for K, v in this.f[IC4 + "::ElementsMap"].items():
+        if not (isinstance(v, Obj) and v.cls == "alias"):
+            raise AnalysisBroken("%s: ElementsMap entry is not an ElementWithPermFreq" % f.qn)
+        ents.append((tuple(K.f[q] for q in IDX), v.f["perm"], v.f["elem"] is elem))
+    nte = this.f[IC4 + "::NonTrivialElements"]
+    nte_ok = len(nte) == 1 and all(tuple(K.f[q] for q in IDX) == orig and v is elem for K, v in nte.items())
+    return {"orig": orig, "entries": sorted(ents), "nte_ok": nte_ok}
+
+
 def body(chk, db, cfgname):
     # ------------------------------------------------------------------ tables
     r1 = chk.rule("C13-R1", "permutation tables are complete with correct parity; every alias key permutation equals its frequency permutation", "F7 tables", 28)
@@ -77,61 +113,96 @@ def body(chk, db, cfgname):
         if ecomps is None or len(set(ecomps)) != 4 and False:
             raise AnalysisBroken("%s: cannot resolve the index quadruple passed to createElement" % f.qn)
         comp = {a: i for i, a in enumerate(ecomps)}
-        ins = [j for j, n in f.walk(f.body) if n["k"] == "call" and n["ck"] == "method" and strip_targs(n.get("cname") or "") in ("std::map::insert", "std::map::emplace")]
-        nident = 0
-        ident_pos = None
-        nte_ins = []
-        for j in ins:
-            n = f.nodes[j]
-            ok_ = ctx.key(n["obj"])
-            ak = ctx.key(n["args"][0]) if n["args"] else None
-            if ok_ == NTE:
-                nte_ins.append((j, ak))
-                continue
-            if ok_ != EMAP:
-                continue
-            # pair(K, ElementWithPermFreq(pElement, permutations4[k]))
-            if not (ak and ak[0] in ("ctor", "call") and len(ak) >= 4):
-                raise AnalysisBroken("%s: unrecognised insertion into ElementsMap: %s" % (f.qn, f.s(j)[:100]))
-            K, E = fold(ak[2]), ak[3]
-            if not (E[0] == "ctor" and E[1] == "Pomerol::ElementWithPermFreq" and E[3][0] == "op" and E[3][1] == "[]" and E[3][2] == ("global", "Pomerol::permutations4") and E[3][3][0] == "lit"):
-                raise AnalysisBroken("%s: alias element is not ElementWithPermFreq(p, permutations4[const]): %s" % (f.qn, f.s(j)[:120]))
-            tk = E[3][3][1]
-            elem = E[2]
-            kc = comps(K)
-            if K == Ek:
-                sigma = (0, 1, 2, 3)
-            elif kc is not None and all(a in comp for a in kc):
-                sigma = tuple(comp[a] for a in kc)
-            else:
-                raise AnalysisBroken("%s: key of the inserted entry is neither Indices nor IndexCombination4 of its components: %s" % (f.qn, f.s(j)[:120]))
-            site = "%s:alias%s" % (strip_targs(f.name), "".join(str(x + 1) for x in sigma))
-            if not (0 <= tk < len(p4)):
-                r1.bad(site, f.loc(j), "permutations4[%d] is outside the table" % tk, cfgname)
-                continue
-            perm, sign = tuple(p4[tk][0]), p4[tk][1]
-            inv = tuple(sorted(range(4), key=lambda i: sigma[i]))
-            if sorted(sigma) != [0, 1, 2, 3]:
-                r1.bad(site, f.loc(j), "alias key repeats a component of Indices: not a permutation", cfgname)
-            elif perm not in (sigma, inv):
-                r1.bad(site, f.loc(j), "entry for the index order %s is stored with frequency permutation permutations4[%d] = %s (sign %+d); the exchange symmetry needs %s with sign %+d" % (
-                    [x + 1 for x in sigma], tk, [x + 1 for x in perm], sign, [x + 1 for x in sigma], parity(sigma)), cfgname)
-            elif sign != parity(sigma):
-                r1.bad(site, f.loc(j), "alias for index order %s has sign %+d, the exchange symmetry needs %+d" % ([x + 1 for x in sigma], sign, parity(sigma)), cfgname)
-            else:
-                r1.ok(site, f.loc(j), "index order %s <-> permutations4[%d] = %s, sign %+d" % ([x + 1 for x in sigma], tk, [x + 1 for x in perm], sign), cfgname)
-            if sigma == (0, 1, 2, 3):
-                nident += 1
-                ident_pos = j
-                ident_elem = elem
-                ident_key = K
-            # note: whether the alias insertion is guarded by "exchanged indices differ" / "!isInContainer" is NOT checked:
-            # std::map::insert never overwrites, so those guards are redundant and dropping them preserves behaviour.
+        interp = None
+        try:
+            ins = [j for j, n in f.walk(f.body) if n["k"] == "call" and n["ck"] == "method" and strip_targs(n.get("cname") or "") in ("std::map::insert", "std::map::emplace")]
+            nident = 0
+            ident_pos = None
+            nte_ins = []
+            for j in ins:
+                n = f.nodes[j]
+                ok_ = ctx.key(n["obj"])
+                ak = ctx.key(n["args"][0]) if n["args"] else None
+                if ok_ == NTE:
+                    nte_ins.append((j, ak))
+                    continue
+                if ok_ != EMAP:
+                    continue
+                # pair(K, ElementWithPermFreq(pElement, permutations4[k]))
+                if not (ak and ak[0] in ("ctor", "call") and len(ak) >= 4):
+                    raise AnalysisBroken("%s: unrecognised insertion into ElementsMap: %s" % (f.qn, f.s(j)[:100]))
+                K, E = fold(ak[2]), ak[3]
+                if not (E[0] == "ctor" and E[1] == "Pomerol::ElementWithPermFreq" and E[3][0] == "op" and E[3][1] == "[]" and E[3][2] == ("global", "Pomerol::permutations4") and E[3][3][0] == "lit"):
+                    raise AnalysisBroken("%s: alias element is not ElementWithPermFreq(p, permutations4[const]): %s" % (f.qn, f.s(j)[:120]))
+                tk = E[3][3][1]
+                elem = E[2]
+                kc = comps(K)
+                if K == Ek:
+                    sigma = (0, 1, 2, 3)
+                elif kc is not None and all(a in comp for a in kc):
+                    sigma = tuple(comp[a] for a in kc)
+                else:
+                    raise AnalysisBroken("%s: key of the inserted entry is neither Indices nor IndexCombination4 of its components: %s" % (f.qn, f.s(j)[:120]))
+                site = "%s:alias%s" % (strip_targs(f.name), "".join(str(x + 1) for x in sigma))
+                if not (0 <= tk < len(p4)):
+                    r1.bad(site, f.loc(j), "permutations4[%d] is outside the table" % tk, cfgname)
+                    continue
+                perm, sign = tuple(p4[tk][0]), p4[tk][1]
+                inv = tuple(sorted(range(4), key=lambda i: sigma[i]))
+                if sorted(sigma) != [0, 1, 2, 3]:
+                    r1.bad(site, f.loc(j), "alias key repeats a component of Indices: not a permutation", cfgname)
+                elif perm not in (sigma, inv):
+                    r1.bad(site, f.loc(j), "entry for the index order %s is stored with frequency permutation permutations4[%d] = %s (sign %+d); the exchange symmetry needs %s with sign %+d" % (
+                        [x + 1 for x in sigma], tk, [x + 1 for x in perm], sign, [x + 1 for x in sigma], parity(sigma)), cfgname)
+                elif sign != parity(sigma):
+                    r1.bad(site, f.loc(j), "alias for index order %s has sign %+d, the exchange symmetry needs %+d" % ([x + 1 for x in sigma], sign, parity(sigma)), cfgname)
+                else:
+                    r1.ok(site, f.loc(j), "index order %s <-> permutations4[%d] = %s, sign %+d" % ([x + 1 for x in sigma], tk, [x + 1 for x in perm], sign), cfgname)
+                if sigma == (0, 1, 2, 3):
+                    nident += 1
+                    ident_pos = j
+                    ident_elem = elem
+                    ident_key = K
+                # note: whether the alias insertion is guarded by "exchanged indices differ" / "!isInContainer" is NOT checked:
+                # std::map::insert never overwrites, so those guards are redundant and dropping them preserves behaviour.
+        except AnalysisBroken as e_struct:
+            # the alias bookkeeping is written in a form the structural rule does not recognise (loop over a table, ...):
+            # interpret the extracted skeleton of set() on an empty container and judge the entries it produces
+            interp = interp_set(db, f, p4)
+            nident = 0
+            nte_ins = []
+            for K, tk, same_elem in interp["entries"]:
+                sigma = tuple(interp["orig"].index(v) for v in K) if sorted(K) == sorted(interp["orig"]) else None
+                site = "%s:alias%s" % (strip_targs(f.name), "".join(str(x + 1) for x in sigma) if sigma else "?")
+                if sigma is None:
+                    r1.bad(site, f.loc(), "an entry is stored under %s, which is not a permutation of the requested quadruple" % (K,), cfgname)
+                    continue
+                if not (0 <= tk < len(p4)):
+                    r1.bad(site, f.loc(), "permutations4[%d] is outside the table" % tk, cfgname)
+                    continue
+                perm, sign = tuple(p4[tk][0]), p4[tk][1]
+                inv = tuple(sorted(range(4), key=lambda i: sigma[i]))
+                if perm not in (sigma, inv):
+                    r1.bad(site, f.loc(), "entry for the index order %s is stored with frequency permutation permutations4[%d] = %s (sign %+d); the exchange symmetry needs %s with sign %+d (decided by interpreting the summary of set(); structural form: %s)" % (
+                        [x + 1 for x in sigma], tk, [x + 1 for x in perm], sign, [x + 1 for x in sigma], parity(sigma), str(e_struct)[-90:]), cfgname)
+                elif sign != parity(sigma) or not same_elem:
+                    r1.bad(site, f.loc(), "alias for index order %s has sign %+d (needs %+d) or does not share the element of the requested quadruple" % ([x + 1 for x in sigma], sign, parity(sigma)), cfgname)
+                else:
+                    r1.ok(site, f.loc(), "index order %s <-> permutations4[%d] = %s, sign %+d (interpreted summary)" % ([x + 1 for x in sigma], tk, [x + 1 for x in perm], sign), cfgname)
+                if sigma == (0, 1, 2, 3):
+                    nident += 1
+            if len(interp["entries"]) < 4:
+                r1.bad("%s:alias-count" % strip_targs(f.name), f.loc(), "set() on four distinct indices stores %d entries, the exchange symmetries need 4 (identity, 2134, 1243, 2143)" % len(interp["entries"]), cfgname)
 
         # ------------------------------------------------------------------ R3 (set): identity element goes to both maps
         r3 = chk.rule("C13-R3", "ElementsMap and NonTrivialElements are maintained together by every mutator", "F4 paired state", 2)
         site = "%s:stored-element" % strip_targs(f.name)
-        if nident != 1:
+        if interp is not None:
+            if nident == 1 and interp["nte_ok"]:
+                r3.ok(site, f.loc(), "the new element is stored under Indices in ElementsMap and in NonTrivialElements (interpreted summary)", cfgname)
+            else:
+                r3.bad(site, f.loc(), "the element stored under Indices in ElementsMap is not also registered in NonTrivialElements (interpreted summary)", cfgname)
+        elif nident != 1:
             r3.bad(site, f.loc(), "set() inserts %d identity entries into ElementsMap (expected exactly one)" % nident, cfgname)
         else:
             good = [j for j, ak in nte_ins if ak and len(ak) >= 4 and ak[2] == ident_key and ak[3] == ident_elem]
